@@ -23,14 +23,16 @@ PROPERTY = 'C15'
 LEVEL = 'model_checking'
 EXHAUSTIVE = True
 T0, T1, T2 = 1000000.0, 1000010.0, 1000020.5
-DLV = [[], [0], [1, 2], [0, 1, 2]]
+DLV = [[], [0], [1, 2], [0, 1, 2], [2, 0]]          # the last one: a legal list that is not ascending
 
 RULE = ('BFS over histories: write A, write B, then up to D mutators from {set_timestamp(id,t1|t2), increment_attempts(id), '
-        'set_recipients_delivered(id, idxs) once per message with idxs in {[],[0],[1,2],[0,1,2]} given as a list, remove(id)} '
+        'set_recipients_delivered(id, idxs) once per message with idxs in {[],[0],[1,2],[0,1,2],[2,0]} given as a list, remove(id)} '
         '(also interleaved with the second write); after every mutator the backend is observed by get(A), get(B), load() '
         '(and get of a removed id) and compared with a dict-based reference store; states merged on reference-store '
         'content.  Thorough: every pair of operations on different ids overlapping in time, interleavings of their '
-        'yield points.  Non-trivial = state in which a message has marks, attempts > 0 or was removed.')
+        'yield points; load() overlapping an operation on another id (3 messages; remove / write / increment / set_timestamp), every '
+        'message untouched by that operation must be listed exactly once; index collections of other shapes (set, tuple, descending '
+        'list, range, frozenset) on a 10-recipient message.  Non-trivial = state in which a message has marks, attempts > 0 or was removed.')
 ASSUMPTIONS = ['fake redis client (bytes replies) and fake object store with aws.py semantics; in-memory FS for disk',
                'ids are compared after ASCII decoding; a get() of a removed id may raise any exception ("gone")',
                'single delivered-marking round per message (multi-round marking is C03)']
@@ -332,6 +334,101 @@ def overlap_case(backend, prefix, opA, opB, res):
     res.interesting(('overlap', opA, opB))
 
 
+# ---- load() overlapping an operation on another message
+def load_overlap_case(backend, opB, res):
+    """writes A, B, C; then list(load()) runs concurrently with opB (on B, or the write of a 4th message D): all
+    interleavings of their yield points.  A and C are not touched by opB: each must be listed exactly once."""
+    finals = set()
+    bad = []
+
+    def run(ch):
+        with World(ch, uuid_modules=UUID_MODULES, max_steps=20000) as w:
+            st, _ = make_backend(backend, w, yield_events=True)
+            ids = {}
+
+            def seq():
+                for l in ('A', 'B', 'C'):
+                    do_op(st, ('write', l), ids)
+            gevent.spawn(seq)
+            w.loop.chooser = None
+            w.run_until_quiescent()
+            w.loop.chooser = ch
+            rs = {}
+
+            def lister():
+                try:
+                    rs['load'] = [(float(t), sid(i)) for t, i in st.load()]
+                except BaseException as e:
+                    rs['load'] = ('raised', type(e).__name__, str(e)[:80])
+
+            def other():
+                try:
+                    rs['op'] = do_op(st, opB, ids)
+                except BaseException as e:
+                    rs['op'] = ('raised', type(e).__name__, str(e)[:80])
+            gevent.spawn(lister)
+            gevent.spawn(other)
+            w.run_until_quiescent()
+            listing = rs.get('load')
+            out = (repr(listing), repr(rs.get('op')))
+            if not isinstance(listing, list):
+                bad.append((list(ch.choices), 'load() overlapping %r on another message: %r' % (opB, listing)))
+            else:
+                for l in ('A', 'C'):
+                    n = sum(1 for t, i in listing if i == ids[l])
+                    if n != 1:
+                        bad.append((list(ch.choices), 'load() overlapping %r: message %s, untouched and live throughout, is listed %d time(s): %r'
+                                    % (opB, l, n, listing)))
+                    elif (T0, ids[l]) not in listing:
+                        bad.append((list(ch.choices), 'load() overlapping %r: message %s listed with a wrong timestamp: %r' % (opB, l, listing)))
+        return out
+    st = explore(run, d=3, dd=None, merge=False, max_exec=20000, on_result=lambda ch, o: finals.add(o))
+    res.evaluations += st.executions
+    res.transitions += st.transitions
+    res.count('load_overlap_executions', st.executions)
+    if st.cap_hit:
+        res.caps.append('load-overlap ' + st.cap_hit)
+    for o in finals:
+        res.outcome((backend, 'load-overlap', o))
+    res.interesting(('load-overlap', backend, opB))
+    if bad:
+        res.violation({'kind': 'load-disturbed-by-operation-on-another-message', 'backend': backend, 'op': opB[0]}, bad[0][1],
+                      {'backend': backend, 'load_overlap': list(opB)})
+
+
+# ---- other shapes of the delivered-index collection
+def index_forms(backend, res):
+    forms = [('set', lambda: {8, 1}), ('descending-list', lambda: [8, 1]), ('tuple', lambda: (1, 8)), ('set3', lambda: {9, 0, 4}),
+             ('frozenset', lambda: frozenset([3, 9])), ('range', lambda: range(0, 10, 3)), ('unsorted-list', lambda: [5, 9, 0]),
+             ('all', lambda: set(range(10))), ('last-first', lambda: [9, 0])]
+    for name, mk in forms:
+        idx = sorted(mk())
+        got = {}
+        with World(Chooser(), uuid_modules=UUID_MODULES, max_steps=20000) as w:
+            st, _ = make_backend(backend, w)
+
+            def body():
+                e = Envelope('sF@x', ['rF%d@y' % j for j in range(10)])
+                e.parse(b'Subject: forms\r\n\r\nbody\r\n')
+                try:
+                    i = st.write(e, T0)
+                    st.set_recipients_delivered(i, mk())
+                    env, attempts = st.get(i)
+                    got['rcpts'] = list(env.recipients)
+                except BaseException as ex:
+                    got['rcpts'] = ('raised', type(ex).__name__, str(ex)[:80])
+            gevent.spawn(body)
+            w.run_until_quiescent()
+        exp = ['rF%d@y' % j for j in range(10) if j not in idx]
+        res.evaluations += 1
+        res.outcome((backend, 'forms', name, repr(got.get('rcpts'))))
+        res.interesting(('forms', backend, name))
+        if got.get('rcpts') != exp:
+            res.violation({'kind': 'get-differs', 'field': 'recipients', 'op': 'dlv', 'backend': backend, 'index_form': name},
+                          'set_recipients_delivered(id, %s %r) on a 10-recipient message: get() recipients %r, reference %r'
+                          % (name, mk() if name != 'range' else list(mk()), got.get('rcpts'), exp), {'backend': backend, 'forms': True})
+
+
 def configs(tier, seed):
     cfgs = []
     depth = 4 if tier == 'quick' else 5
@@ -341,6 +438,11 @@ def configs(tier, seed):
         for a, bb in ((('inc', 'A'), ('ts', 'B', T2)), (('write', 'A'), ('write', 'B')), (('dlv', 'A', (0,)), ('rm', 'B')), (('rm', 'A'), ('inc', 'B'))):
             cfgs.append({'mode': 'overlap', 'backend': 'disk', 'a': list(a), 'b': list(bb)})
         cfgs.append({'mode': 'overlap', 'backend': 'redis', 'a': ['inc', 'A'], 'b': ['dlv', 'B', [1, 2]]})
+    for b in ('dict', 'disk', 'redis', 'cloud'):
+        cfgs.append({'mode': 'forms', 'backend': b})
+    for b in ('disk', 'redis', 'cloud'):
+        for op in (('rm', 'B'), ('write', 'D'), ('inc', 'B'), ('ts', 'B', T2)):
+            cfgs.append({'mode': 'load-overlap', 'backend': b, 'op': list(op)})
     if tier == 'thorough':
         opsA = [('ts', 'A', T1), ('inc', 'A'), ('dlv', 'A', (0,)), ('rm', 'A'), ('write', 'A')]
         opsB = [('ts', 'B', T2), ('inc', 'B'), ('dlv', 'B', (1, 2)), ('rm', 'B'), ('write', 'B')]
@@ -358,6 +460,12 @@ def run_config(cfg, tier, seed):
         ks = sorted(seen)
         res.sample({'backend': cfg['backend'], 'a_history': [list(o) for o in seen[ks[len(ks) // 2]]], 'abstract_states': len(seen)})
         res.count('abstract_states', len(seen))
+    elif cfg['mode'] == 'forms':
+        index_forms(cfg['backend'], res)
+        res.sample({'backend': cfg['backend'], 'index_forms': 9})
+    elif cfg['mode'] == 'load-overlap':
+        load_overlap_case(cfg['backend'], tuple(cfg['op']), res)
+        res.sample({'backend': cfg['backend'], 'load_overlapping': cfg['op']})
     else:
         a, b = tuple(cfg['a']), tuple(cfg['b'])
         a = a[:2] + ((tuple(a[2]),) if len(a) > 2 and isinstance(a[2], list) else a[2:])
@@ -396,6 +504,16 @@ def replay(rep):
             return True, viols[0][1]
         return False, 'backend agrees with the reference store after %r' % (hist[-1],)
     res = Result()
+    if rep.get('forms'):
+        index_forms(rep['backend'], res)
+        if res.violations:
+            return True, res.violations[0]['message']
+        return False, 'every index collection shape removes exactly the marked recipients'
+    if rep.get('load_overlap'):
+        load_overlap_case(rep['backend'], tuple(rep['load_overlap']), res)
+        if res.violations:
+            return True, res.violations[0]['message']
+        return False, 'load() lists every untouched message exactly once'
     prefix, a, b = rep['overlap']
     tt = lambda op: tuple(tuple(x) if isinstance(x, list) else x for x in op)
     overlap_case(rep['backend'], [tt(p) for p in prefix], tt(a), tt(b), res)
